@@ -110,7 +110,6 @@ func VerifIntrospectionAnswers() {
 	tn := names[verifChoice("type", len(names))]
 	verifLog("type: " + tn)
 	byVar := verifChoice("byvariable", 2) == 1
-	verifKnown("C16-type-name-by-variable", byVar)
 	// the null-ness the specification prescribes per kind is judged on separate paths, so that the
 	// recorded finding about it does not hide anything else
 	shape := verifChoice("section", 2) == 1
@@ -142,7 +141,6 @@ func VerifIntrospectionAnswers() {
 	verifAssert(entry["kind"] == string(def.Kind), "kind")
 	isObj := def.Kind == ast.Object || def.Kind == ast.Interface
 	if shape {
-		verifKnown("C16-shape-per-kind", true)
 		if !isObj {
 			verifAssert(entry["fields"] == nil, "fields is null for types that are neither objects nor interfaces")
 		}
@@ -158,8 +156,6 @@ func VerifIntrospectionAnswers() {
 		verifReach("shape checked")
 		return
 	}
-	verifKnown("C16-interface-possible-types", def.Kind == ast.Interface)
-	verifKnown("C16-input-field-defaults", def.Kind == ast.InputObject)
 	if isObj {
 		var want []string
 		for _, fd := range def.Fields {
@@ -260,7 +256,6 @@ func VerifIntrospectionSiblings() {
 func VerifIntrospectionRoundTrip() {
 	vK = 1
 	f := vNewFed(&vWorld{ents: map[string]vEnt{}, roots: map[string]interface{}{}}, nil, vS16A, vS16B)
-	verifKnown("C16-second-gateway-cannot-introspect", true)
 	q := &v16Queryer{gw: f.gw}
 	intro := &introspection.ParallelRemoteSchemaIntrospector{Factory: func(string) queryer.Queryer { return q }}
 	res, err := intro.IntrospectRemoteSchemas("gw")
